@@ -5,13 +5,16 @@ cd /verif || exit 2
 IDS=${@:-$(ls seeded | grep -E '^C[0-9]+-')}
 OUT=/verif/seeded/RESULTS.tsv
 TMP=$(mktemp -d /tmp/mutmx.XXXX)
+# the checks run from a snapshot of the committed /verif, so that the working tree may be edited meanwhile
+VSNAP=$TMP/verif; mkdir -p $VSNAP; git -C /verif archive HEAD | tar -x -C $VSNAP
+export VSNAP
 run_one() {
   id=$1; prop=${id%%-*}; wt=$TMP/wt-$id
   git -C /repo worktree add -q --detach $wt HEAD || { echo -e "$id\t$prop\tworktree-failed"; return; }
   if ! git -C $wt apply /verif/seeded/$id/patch.diff 2>/dev/null && ! git -C $wt apply --3way /verif/seeded/$id/patch.diff 2>/dev/null; then
     echo -e "$id\t$prop\tPATCH-DOES-NOT-APPLY\t-"; git -C /repo worktree remove --force $wt; return; fi
   log=$TMP/$id.log
-  VERIF_REPO=$wt VERIF_EVIDENCE_DIR=$TMP/ev-$id VERIF_REPLAY_DIR=$TMP/rp-$id /verif/check $prop --tier quick > $log 2>&1; rc=$?
+  VERIF_REPO=$wt VERIF_EVIDENCE_DIR=$TMP/ev-$id VERIF_REPLAY_DIR=$TMP/rp-$id $VSNAP/check $prop --tier quick > $log 2>&1; rc=$?
   first=$(grep -A1 '^VIOLATION' $log | grep monitor= | head -1 | sed 's/^ *//' | cut -c1-160)
   echo -e "$id\t$prop\texit=$rc\t${first:-$(grep -E 'ERROR|INCONCLUSIVE' $log | head -1 | cut -c1-120)}"
   git -C /repo worktree remove --force $wt
